@@ -54,6 +54,11 @@ enum Case {
     /// collectors with these hints (None = no hint; 0..=5 = OFF..TRACE) are created one after
     /// another; `keep[i]` says whether collector i stays alive when i+1 is created
     Hints { hints: Vec<Option<u8>>, keep: Vec<bool> },
+    /// collector B (hint `b_before`) is live; while another thread is inside `Dispatch::new(A)`
+    /// (A's first max_level_hint call is held), B changes its hint to `b_after` and calls
+    /// rebuild_interest_cache() as the documentation requires; afterwards the published maximum
+    /// has to be max(b_after, a)
+    HintRace { b_before: u8, b_after: u8, a: Option<u8> },
 }
 
 struct HintCollector(Option<LevelFilter>);
@@ -413,6 +418,86 @@ fn run_hints(hints: &[Option<u8>], keep: &[bool]) -> Result<bool, Fail> {
     Ok(varied)
 }
 
+struct VarHint(std::sync::Arc<std::sync::atomic::AtomicU8>);
+struct GateHint {
+    hint: Option<LevelFilter>,
+    entered: std::sync::Arc<std::sync::atomic::AtomicBool>,
+    gate: std::sync::Arc<(std::sync::Mutex<bool>, std::sync::Condvar)>,
+    first: std::sync::atomic::AtomicBool,
+}
+macro_rules! plain_collect {
+    ($t:ty, $hint:expr) => {
+        impl Collect for $t {
+            fn register_callsite(&self, _: &'static Metadata<'static>) -> Interest {
+                Interest::sometimes()
+            }
+            fn enabled(&self, _: &Metadata<'_>) -> bool {
+                true
+            }
+            fn max_level_hint(&self) -> Option<LevelFilter> {
+                #[allow(clippy::redundant_closure_call)]
+                ($hint)(self)
+            }
+            fn new_span(&self, _: &span::Attributes<'_>) -> span::Id {
+                span::Id::from_u64(1)
+            }
+            fn record(&self, _: &span::Id, _: &span::Record<'_>) {}
+            fn record_follows_from(&self, _: &span::Id, _: &span::Id) {}
+            fn event(&self, _: &Event<'_>) {}
+            fn enter(&self, _: &span::Id) {}
+            fn exit(&self, _: &span::Id) {}
+            fn current_span(&self) -> span::Current {
+                span::Current::unknown()
+            }
+        }
+    };
+}
+plain_collect!(VarHint, |s: &VarHint| Some(FILTERS[s.0.load(std::sync::atomic::Ordering::SeqCst) as usize % 6]));
+plain_collect!(GateHint, |s: &GateHint| {
+    if !s.first.swap(true, std::sync::atomic::Ordering::SeqCst) {
+        s.entered.store(true, std::sync::atomic::Ordering::SeqCst);
+        let (m, cv) = &*s.gate;
+        let mut open = m.lock().unwrap();
+        let t0 = std::time::Instant::now();
+        while !*open && t0.elapsed() < std::time::Duration::from_secs(3) {
+            open = cv.wait_timeout(open, std::time::Duration::from_millis(50)).unwrap().0;
+        }
+    }
+    s.hint
+});
+
+fn run_hint_race(b_before: u8, b_after: u8, a: Option<u8>) -> Result<bool, Fail> {
+    use std::sync::atomic::{AtomicBool, AtomicU8, Ordering};
+    use std::sync::{Arc, Condvar, Mutex};
+    let bh = Arc::new(AtomicU8::new(b_before % 6));
+    let _db = Dispatch::new(VarHint(bh.clone()));
+    let entered = Arc::new(AtomicBool::new(false));
+    let gate = Arc::new((Mutex::new(false), Condvar::new()));
+    let (e2, g2) = (entered.clone(), gate.clone());
+    let x = std::thread::spawn(move || Dispatch::new(GateHint { hint: a.map(|r| FILTERS[r as usize % 6]), entered: e2, gate: g2, first: AtomicBool::new(false) }));
+    let t0 = std::time::Instant::now();
+    while !entered.load(Ordering::SeqCst) && t0.elapsed() < std::time::Duration::from_secs(3) {
+        std::thread::sleep(std::time::Duration::from_micros(200));
+    }
+    bh.store(b_after % 6, Ordering::SeqCst);
+    let y = std::thread::spawn(tracing_core::callsite::rebuild_interest_cache);
+    std::thread::sleep(std::time::Duration::from_millis(10));
+    {
+        let (m, cv) = &*gate;
+        *m.lock().unwrap() = true;
+        cv.notify_all();
+    }
+    let da = x.join().map_err(|_| ("panic while creating a Dispatch".to_string(), String::new()))?;
+    y.join().map_err(|_| ("panic in rebuild_interest_cache".to_string(), String::new()))?;
+    let want = (b_after % 6).max(a.map(|r| r % 6).unwrap_or(5));
+    let got = frank(&LevelFilter::current());
+    drop(da);
+    if got != want {
+        return Err(("max-level read-back after a hint change whose rebuild overlapped a Dispatch creation".into(), format!("collector B changed its hint from rank {} to {} and rebuilt while Dispatch::new(A, hint {:?}) was under way: LevelFilter::current() rank {got}, expected {want}", b_before % 6, b_after % 6, a.map(|r| r % 6))));
+    }
+    Ok(b_before % 6 != b_after % 6)
+}
+
 struct C19;
 
 impl Property for C19 {
@@ -475,6 +560,10 @@ impl Property for C19 {
                 }
                 Err((sig, d)) => Outcome::fail(sig, d),
             },
+            Case::HintRace { b_before, b_after, a } => match run_hint_race(*b_before, *b_after, *a) {
+                Ok(nt) => Outcome::pass(nt, vec!["hint_change_overlapping_dispatch_creation".into()]),
+                Err((sig, detail)) => Outcome::fail(sig, detail),
+            },
             Case::Hints { hints, keep } => match run_hints(hints, keep) {
                 Ok(varied) => Outcome::pass(varied, vec![if keep.iter().take(hints.len().saturating_sub(1)).any(|k| *k) { "hints_several_live".to_string() } else { "hints_lone".to_string() }]),
                 Err((sig, d)) => Outcome::fail(sig, d),
@@ -482,7 +571,7 @@ impl Property for C19 {
         }
     }
     fn rule(&self) -> String {
-        "enumeration (complete): all ordered pairs of the 5 levels and 6 filters in all four type combinations x {==,!=,<,<=,>,>=,partial_cmp,cmp,min,max,clamp,sort}; all conversions (From/into_level/from_level/AsLog/AsTrace, Display->FromStr); level<=filter vs the LevelFilter layer; all 136 letter-case spellings and digits 0-9; read-back of every hint (None,OFF..TRACE) by a lone collector. generated: strings derived from accepted spellings by whitespace/affix/edit/look-alike mutations plus random strings (must be rejected; '+3'/'03'-style numerals tolerated), and histories of 1-6 collectors with hints (lone or overlapping). non-trivial: ordered pairs of different rank; mixed-case spellings; generated strings within edit distance 1 (after trim/lowercase) of an accepted spelling but not canonical; hint histories in which the published maximum changes; distinct by canonical case encoding".into()
+        "enumeration (complete): all ordered pairs of the 5 levels and 6 filters in all four type combinations x {==,!=,<,<=,>,>=,partial_cmp,cmp,min,max,clamp,sort}; all conversions (From/into_level/from_level/AsLog/AsTrace, Display->FromStr); level<=filter vs the LevelFilter layer; all 136 letter-case spellings and digits 0-9; read-back of every hint (None,OFF..TRACE) by a lone collector; all 252 (hint before, hint after, other collector's hint) triples of a hint change + rebuild_interest_cache() that overlaps another thread's Dispatch::new (real threads, the other collector's first max_level_hint call is held). generated: strings derived from accepted spellings by whitespace/affix/edit/look-alike mutations plus random strings (must be rejected; '+3'/'03'-style numerals tolerated), and histories of 1-6 collectors with hints (lone or overlapping). non-trivial: ordered pairs of different rank; mixed-case spellings; generated strings within edit distance 1 (after trim/lowercase) of an accepted spelling but not canonical; hint histories in which the published maximum changes; distinct by canonical case encoding".into()
     }
     fn assumptions(&self) -> Vec<String> {
         vec![
@@ -494,7 +583,20 @@ impl Property for C19 {
     fn exhaustive(&self, _tier: Tier) -> bool {
         true
     }
-    fn enumerate(&self, _tier: Tier, shard: u32, _of: u32, rec: &mut Rec<'_, Self>) {
+    fn enumerate(&self, _tier: Tier, shard: u32, of: u32, rec: &mut Rec<'_, Self>) {
+        // hint changes whose rebuild overlaps a Dispatch creation: all (before, after, other)
+        // triples, spread over the shards (each takes a few milliseconds of real time)
+        let mut k = 0u32;
+        for b_before in 0u8..6 {
+            for b_after in 0u8..6 {
+                for a in [None, Some(0u8), Some(1), Some(2), Some(3), Some(4), Some(5)] {
+                    if k % of == shard {
+                        rec.eval(&Case::HintRace { b_before, b_after, a });
+                    }
+                    k += 1;
+                }
+            }
+        }
         if shard != 0 {
             return;
         }
